@@ -233,6 +233,14 @@ class ScriptGen:
         op = r.choice(["OP_CAT", "OP_SUBSTR", "OP_LEFT", "OP_RIGHT", "OP_INVERT", "OP_AND", "OP_OR", "OP_XOR", "OP_2MUL",
                        "OP_MUL", "OP_DIV", "OP_MOD", "OP_LSHIFT", "OP_RSHIFT"])
         self.features.add("disabled")
+        if op == "OP_CAT" and r.chance(12):
+            # repeated doubling: the one way a stack item can grow far beyond the push limit
+            self.emit(r.bytes(r.range(1, 3)))
+            for _ in range(r.choice([9, 12, 15, 16, 17])):
+                self.emit("OP_DUP", "OP_CAT")
+            self.st.append("d")
+            self.features.add("huge-item")
+            return
         if op == "OP_CAT":
             self.emit(r.bytes(r.range(1, 20)), r.bytes(r.range(1, 20)), op)
             self.st.append("d")
